@@ -137,13 +137,15 @@ func ParsePHC(s string) (*PHC, error) {
 	// Decode salt (expect 16 bytes to fit [16]byte)
 	saltB64 := parts[3]
 	var salt [16]byte
-	n, err := base64.RawStdEncoding.Decode(salt[:], []byte(saltB64))
+	// Decode into a fresh slice: decoding straight into salt[:] panics when the input is longer than 16 bytes
+	saltBytes, err := base64.RawStdEncoding.DecodeString(saltB64)
 	if err != nil {
 		return nil, fmt.Errorf("invalid salt: %w", err)
 	}
-	if n != 16 {
-		return nil, fmt.Errorf("invalid salt length: got %d, want 16", n)
+	if len(saltBytes) != 16 {
+		return nil, fmt.Errorf("invalid salt length: got %d, want 16", len(saltBytes))
 	}
+	copy(salt[:], saltBytes)
 
 	// Decode hash
 	hashB64 := parts[4]
